@@ -333,6 +333,17 @@ theorem C02_managed_needs_contract :
          s.hist.map (fun c => (c.ts, c.conflictKeys)), s.o.discardTs)) =
     some (some (.ok 10), [(7, [1])], 9) := by decide
 
+/-- `Reach true true n` puts no order on `commitAt` timestamps (they are caller-chosen): the
+    managed-mode theorems cover non-monotonic histories. Witness (seeded/C02-hasconflict-break):
+    0 reads fingerprint 1 at read timestamp 5, 1 overwrites it at 10, an unrelated commit lands at 3
+    — the history is `[10, 3]` — and `CommitAt(11)` of 0 is rejected. -/
+theorem C02_managed_nonmonotonic_witness :
+    ((Sys.opened true true 0).runLabels
+      [.beginAt 5 true, .read 0 1, .write 0 1, .beginAt 5 true, .write 1 1, .commitAt 1 10,
+       .beginAt 2 true, .write 2 2, .commitAt 2 3]).map
+      (fun s => ((s.txns[0]?).map (fun x => (s.o.newCommitTs { x.t with commitTs := 11 }).2.2),
+        s.hist.map (·.ts))) = some (some .conflict, [10, 3]) := by decide
+
 /-! ## Non-vacuity: concrete reachable histories -/
 
 /-- Two update transactions start at read timestamp 0; 0 reads fingerprint 7 and writes 8, 1 writes
